@@ -67,6 +67,8 @@ def gen_dataset(ctx):
         {"format": "fb", "algs": ["sha256", "md5", "xxh64"], "width": 64, "eps": 4, "n": 6, "second_session": True, "merged_fillers": 2},
         {"format": "fb", "algs": ["sha256", "xxh64"], "width": 700000, "eps": 2, "n": 4, "threaded_fillers": 6},
         {"format": "npz", "algs": ["md5"], "width": 300000, "eps": 3, "n": 3, "threaded_fillers": 3},
+        {"format": "fb", "algs": ["sha256"], "width": 64, "eps": 2, "n": 5, "late_commit": True},
+        {"format": "npz", "algs": ["md5", "xxh64"], "width": 64, "eps": 3, "n": 4, "second_session": True, "late_commit": True},
         # shard files of 9 MB and more with several algorithms (large files may be hashed differently: in parallel, memory-mapped, in bigger blocks)
         {"format": "npz", "algs": ["sha256", "md5", "xxh64", "sha3_256"], "width": 3000000, "eps": 3, "n": 3},
         {"format": "fb", "algs": ["xxh128", "sha1"], "width": 4500000, "eps": 2, "n": 2},
